@@ -41,6 +41,7 @@ Get0(f, x, d) == IF x \in DOMAIN f THEN f[x] ELSE d
 Put0(f, x, v) == [y \in DOMAIN f \cup {x} |-> IF y = x THEN v ELSE f[y]]
 Del(f, x) == [y \in DOMAIN f \ {x} |-> f[y]]
 NoTouch == [a |-> -1, e |-> 0]
+NoPut == [a |-> -1, e |-> 0, blk |-> -1]
 NoCommit == [keys |-> {}, line |-> 0]
 Max(a, b) == IF a > b THEN a ELSE b
 
@@ -57,6 +58,7 @@ S0 == [cfg |-> [access |-> "flat", old |-> 0, coop |-> TRUE, minEpoch |-> 0, per
        dets |-> {},        \* [b, line]: corruption detected in block b at line
        blkRegion |-> <<>>, openR |-> <<>>, openW |-> <<>>,
        wblk |-> <<>>,      \* process -> block its upload is written into
+       lastPut |-> <<>>,   \* <<inst, key>> -> [a |-> allocs at the start of the latest acknowledged upload, e |-> line of its end, blk |-> block written]
        idem |-> FALSE,     \* a successful touch is being repeated immediately
        \* persistence
        acked |-> <<>>,     \* <<inst, key>> -> tallocs at the start of the latest acknowledged upload
@@ -121,6 +123,8 @@ PutEnd ==
           !.nValid = IF Ev.valid /\ Ev.res # "OK" THEN Put0(@, KeyOf(Ev), Get0(@, KeyOf(Ev), 0) - 1) ELSE @,
           !.granted = IF Ev.valid /\ Ev.res = "OK" THEN Put0(@, Ev.k, Get0(@, Ev.k, {}) \cup {Ev.inst}) ELSE @,
           !.acked = IF Ev.valid /\ Ev.res = "OK" THEN Put0(@, KeyOf(Ev), s.inflight[Ev.p].ta) ELSE @,
+          !.lastPut = IF Ev.valid /\ Ev.res = "OK"
+                      THEN Put0(@, KeyOf(Ev), [a |-> s.inflight[Ev.p].a, e |-> l, blk |-> Get0(s.wblk, Ev.p, -1)]) ELSE @,
           !.inflight = Del(@, Ev.p),
           !.wblk = IF Ev.p \in DOMAIN @ THEN Del(@, Ev.p) ELSE @,
           !.idem = FALSE]
@@ -130,6 +134,13 @@ PutEnd ==
 RetentionOK(k, op) ==
     LET t == Get0(s.touch, k, NoTouch) IN
     (On("C05") /\ ~s.corrupted /\ t.a >= 0 /\ op.line > t.e) => s.allocs - t.a >= s.cfg.old + 1
+
+\* C08: "objects in newer blocks are unaffected": an acknowledged upload written into a block newer than every
+\* block in which corruption was detected keeps the retention of any fresh upload (at least old+1 further block
+\* allocations before normal rotation can evict it), whatever was quarantined meanwhile.
+UnaffectedOK(k, op) ==
+    LET t == Get0(s.lastPut, k, NoPut) IN
+    (On("C08") /\ t.a >= 0 /\ t.blk >= 0 /\ op.line > t.e /\ ~\E d \in s.dets : t.blk <= d.b) => s.allocs - t.a >= s.cfg.old + 1
 
 \* C03: after the restart a key that had to survive is readable, unless normal rotation
 \* (old+1 block hand-outs since its upload started) may have evicted it.
@@ -141,7 +152,7 @@ GetEnd ==
     /\ Ev.p \in DOMAIN s.inflight
     /\ LET op == s.inflight[Ev.p] IN
        /\ (ReadClause /\ Ev.kind = "Data") => (Ev.what = Ev.k /\ Visible(Ev))
-       /\ Ev.kind = "NotFound" => RetentionOK(KeyOf(Ev), op)
+       /\ Ev.kind = "NotFound" => (RetentionOK(KeyOf(Ev), op) /\ UnaffectedOK(KeyOf(Ev), op))
        /\ SurvivalOK(KeyOf(Ev), Ev.kind = "Data")
        /\ s' = [s EXCEPT
              !.touch = IF Ev.kind = "Data" THEN Put0(@, KeyOf(Ev), [a |-> op.a, e |-> l]) ELSE @,
@@ -156,7 +167,7 @@ FmEnd ==
            miss == ToSet(Ev.missing)
            pres == {<<Ev.inst, k>> : k \in ks \ miss} IN
        /\ (Ev.res = "OK" /\ ReadClause) => \A k \in ks \ miss : Visible([k |-> k, inst |-> Ev.inst])
-       /\ Ev.res = "OK" => \A k \in miss : RetentionOK(<<Ev.inst, k>>, op) /\ SurvivalOK(<<Ev.inst, k>>, FALSE)
+       /\ Ev.res = "OK" => \A k \in miss : RetentionOK(<<Ev.inst, k>>, op) /\ SurvivalOK(<<Ev.inst, k>>, FALSE) /\ UnaffectedOK(<<Ev.inst, k>>, op)
        /\ s' = [s EXCEPT
              !.touch = IF Ev.res = "OK"
                        THEN [x \in DOMAIN @ \cup pres |-> IF x \in pres THEN [a |-> op.a, e |-> l] ELSE @[x]]
@@ -277,7 +288,7 @@ Crash ==
 Restart ==
     /\ Ev.ev = "Restart"
     /\ s' = [s EXCEPT !.phase = "post", !.inflight = <<>>, !.allocs = 0, !.relsd = 0, !.pops = 0, !.touch = <<>>,
-                      !.dets = {}, !.blkRegion = <<>>, !.openR = <<>>, !.openW = <<>>, !.wblk = <<>>, !.idem = FALSE,
+                      !.dets = {}, !.blkRegion = <<>>, !.openR = <<>>, !.openW = <<>>, !.wblk = <<>>, !.lastPut = <<>>, !.idem = FALSE,
                       !.cand = NoCommit, !.candSynced = NoCommit, !.candState = NoCommit, !.committed = NoCommit,
                       !.lastSyncT = -1, !.shutdown = FALSE, !.listedSnap = {}, !.listed = {}]
 
